@@ -237,7 +237,10 @@ func cmdCheck(args []string) int {
 	if thorough {
 		quickSec, slowSec = 60, 60
 	}
+	tGen := time.Since(t0).Seconds()
 	res := solveAll(obls, work, quickSec, slowSec, thorough, 16)
+	tSolve := time.Since(t0).Seconds() - tGen
+	fmt.Fprintf(os.Stderr, "gowp: load+generate %.1fs, render+solve %.1fs\n", tGen, tSolve)
 	var reports []oblReport
 	discharged := 0
 	var solverMs int64
